@@ -42,7 +42,7 @@ LEVEL_NOTE = ("Trusts the wrapped elements' own methods (twins are driven throug
               "buffer-size clause (the property's own observation point).")
 TECHNIQUE = "history recorder + block-model twin oracle + exactly-once accounting + LINE step budget"
 
-RUN_KINDS = ["run_collect", "run_cum", "run_map", "run_first", "run_named"]
+RUN_KINDS = ["run_collect", "run_cum", "run_map", "run_first", "run_named", "run_count"]
 FC_KINDS = ["fc_store", "fc_sum", "fc_count", "fc_live"]
 FR_KINDS = ["fr_store", "fr_inner", "fr_custom"]
 
@@ -270,6 +270,9 @@ def make_el(kind):
         return RunNamedReset()
     if kind == "run_first":
         return RunFirst()
+    if kind == "run_count":
+        # an element with run AND fill/compute (the adapter takes its run)
+        return lena.flow.Count()
     if kind == "fc_store":
         return Store()
     if kind == "fc_live":
@@ -289,7 +292,7 @@ def make_el(kind):
 
 
 def has_reset(kind):
-    return kind not in ("run_collect", "run_map", "run_first", "fc_count")
+    return kind not in ("run_collect", "run_map", "run_first", "fc_count", "run_count")
 
 
 def apply_block(kind, el, block):
@@ -425,6 +428,9 @@ def cases(tier, seed):
                 for post in [False, True]:
                     yield {"k": "frseq", "n": n, "reset": reset, "pre": pre, "post": post,
                            "nmax": 9}
+                    for inner in ("run_count", "fc_store", "fr_store"):
+                        yield {"k": "frseq", "n": n, "reset": reset, "pre": pre, "post": post,
+                               "nmax": 9, "inner": inner}
     # long flows: many blocks buffered between two requests (Split's default bufsize is 1000)
     for kind in ["fc_sum", "fr_store"]:
         for n in (1, 2, 7):
@@ -991,8 +997,12 @@ def run_case(r, obs):
             args = []
             if pre:
                 args.append(lambda x: x + 100)
-            args.append(lena.core.FillRequest(Store(), bufsize=1, reset=True,
-                                              buffer_input=True))
+            if r.get("inner"):
+                # one FillRequest with the block size of the sequence around it
+                args.append(make_fr(r["inner"], bufsize, "in", False, False))
+            else:
+                args.append(lena.core.FillRequest(Store(), bufsize=1, reset=True,
+                                                  buffer_input=True))
             if post:
                 args.append(lambda v: ("post", v))
             kw = {"yield_on_remainder": True} if yor else {}
